@@ -589,6 +589,20 @@ Proof.
   apply spec_is_doc_choice, filter_is_reg_all.
 Qed.
 
+(* registering a hook for one exact type (a union, a NewType) leaves every other type alone *)
+Theorem reg_exact_leaves_others s u hd t :
+  t <> u -> spec (reg_func C s (PExact u) hd) t = spec s t.
+Proof.
+  intros Hne. destruct (reg_func_fields s (PExact u) hd) as (_ & _ & Hs & Hu & Hf & Hp). cbn in *.
+  rewrite !spec_unfold. unfold single_lookup. rewrite Hs.
+  destruct (first_some (assoc (single s)) (w_mro W t)); [reflexivity|].
+  rewrite !func_tier_hook. cbn [preds strip set_cache set_direct ureg fallback].
+  rewrite Hp, H_front, Hu, Hf. cbn [func_find accepts].
+  assert (E : N.eqb u t = false) by (apply N.eqb_neq; congruence). rewrite E.
+  rewrite (func_find_ureg (strip (reg_func C s (PExact u) hd)) (strip s) (preds s) t) by (cbn; exact Hu).
+  reflexivity.
+Qed.
+
 Lemma copy_to_core s s' other k : same_core s s' -> copy_to C s other k = copy_to C s' other k.
 Proof. intros (H1 & H2 & _). unfold copy_to. rewrite H1, H2. reflexivity. Qed.
 
